@@ -1633,13 +1633,19 @@ func HandleUploadFile(cc *hotline.ClientConn, t *hotline.Transaction) (res []hot
 
 	// client has requested to resume a partially transferred file
 	if transferOptions != nil {
+		// Nothing of the file may have arrived yet (the earlier connection died before its first data byte): the upload
+		// then resumes from offset 0.
+		var partialSize int64
+
 		fileInfo, err := cc.Server.FS.Stat(fullFilePath + hotline.IncompleteFileSuffix)
-		if err != nil {
+		if err == nil {
+			partialSize = fileInfo.Size()
+		} else if !errors.Is(err, fs.ErrNotExist) {
 			return res
 		}
 
 		offset := make([]byte, 4)
-		binary.BigEndian.PutUint32(offset, uint32(fileInfo.Size()))
+		binary.BigEndian.PutUint32(offset, uint32(partialSize))
 
 		fileResumeData := hotline.NewFileResumeData([]hotline.ForkInfoList{
 			*hotline.NewForkInfoList(offset),
